@@ -223,6 +223,32 @@ def access_cases(cname, cfg, opts, tier):
     return cs
 
 
+def conversion_cases(cname, cfg, tier):
+    """aligned <-> packed conversions keep the element order: component i of the converted vector / matrix is component i of the source, for every
+    length, element type and qualifier pair (the SIMD configurations have hand-written load / store / shuffle specialisations for some of them)"""
+    cs = []
+    types = ['float', 'int', 'uint', 'double'] if tier == 'quick' else ['float', 'int', 'uint', 'double', 'int8', 'uint16', 'int64']
+    precs = ['highp'] if tier == 'quick' else ['highp', 'mediump', 'lowp']
+    for T in types:
+        for Lv in (1, 2, 3, 4):
+            for pa in precs:
+                for pp in precs:
+                    at, pt = G.vec(Lv, T, 'aligned_' + pa), G.vec(Lv, T, 'packed_' + pp)
+                    for src, dst, d in ((at, pt, 'aligned_%s->packed_%s' % (pa, pp)), (pt, at, 'packed_%s->aligned_%s' % (pp, pa))):
+                        k = K('%s_cv_%s_%s' % (cfg.name, src.tag, dst.tag), [Par('o', dst, False), Par('v', src)], '*o = %s(*v);' % dst.cpp, cfg)
+                        cs.append(sel_case('vec%d<%s> %s@%s' % (Lv, T, d, cname), 'aligned_conversion', k, dst, {i: ('v', src, i) for i in range(Lv)}))
+                        k = K('%s_as_%s_%s' % (cfg.name, src.tag, dst.tag), [Par('o', dst, False), Par('v', src)], '%s t(*v); *o = t;' % dst.cpp, cfg)
+                        cs.append(sel_case('vec%d<%s> copy-init %s@%s' % (Lv, T, d, cname), 'aligned_conversion', k, dst, {i: ('v', src, i) for i in range(Lv)}))
+        if T in ('float', 'double', 'int'):
+            for C in (2, 3, 4):
+                for Rr in (2, 3, 4):
+                    at, pt = G.mat(C, Rr, T, 'aligned_highp'), G.mat(C, Rr, T, 'packed_highp')
+                    for src, dst, d in ((at, pt, 'aligned->packed'), (pt, at, 'packed->aligned')):
+                        k = K('%s_cvm_%s_%s' % (cfg.name, src.tag, dst.tag), [Par('o', dst, False), Par('m', src)], '*o = %s(*m);' % dst.cpp, cfg)
+                        cs.append(sel_case('mat%dx%d<%s> %s@%s' % (C, Rr, T, d, cname), 'aligned_conversion', k, dst, {(c, r): ('m', src, (c, r)) for c in range(C) for r in range(Rr)}))
+    return cs
+
+
 def sel_case(name, rule, k, outty, want):
     """every output lane must be exactly the named input lane"""
     def judge(ctx):
@@ -252,6 +278,9 @@ def cases(tier):
     kcfgs = [c for c in configs(tier) if c[0] in ('default', 'XYZW_ONLY', 'QUAT_DATA_WXYZ', 'SWIZZLE', 'SIZE_T_LENGTH', 'DEFAULT_ALIGNED_SSE2', 'CXX98', 'SWIZZLE+WXYZ')]
     for cname, cfg, opts in kcfgs:
         cs += access_cases(cname, cfg, opts, tier)
+    for cname, cfg, opts in configs(tier):
+        if cname in ('INTRINSICS_SSE2', 'DEFAULT_ALIGNED_SSE2') or (tier == 'thorough' and cname == 'INTRINSICS_AVX2'):
+            cs += conversion_cases(cname, cfg, tier)
     cs += canaries()
     return cs
 
